@@ -355,10 +355,15 @@ class Real:
         L = self.loop
         pend = L.pending()
         if not pend:
+            if self.spec.next_due(L.t) is not None and not self.spec.dead:
+                self.spec.fail("timer:missed-tick", "a live timer has a pending loop handle", "nothing scheduled")
             self.ctx.bump("pass:idle")
             return
         soon = [r for r in pend if not isinstance(r["handle"], asyncio.TimerHandle)]
         base = L.t if soon else min(ticks_of(r["handle"].when()) for r in pend)
+        exp = self.spec.next_due(L.t)        # where the property expects the next tick
+        if exp is not None and not self.spec.dead:
+            base = min(base, exp)
         target = max(L.t, base + lat)
         d = target - L.t
         L.t = target
@@ -395,6 +400,10 @@ class Spec:
     def created(self, k, start, interval):
         self.tm[k] = dict(live=True, start=start, I=interval, nb=start + interval, last_b=0, ver=0, cause=None,
                           late=0, fresh=True, runs=0)
+
+    def next_due(self, now):
+        ds = [now if m["I"] == 0 else m["nb"] + m["late"] for m in self.tm.values() if m["live"]]
+        return min(ds) if ds else None
 
     def begin_pass(self, t):
         self.pass_t = t
